@@ -4,7 +4,7 @@ import time
 
 from . import core
 
-ELEMS = {"int": "int", "double": "double", "NTRTM": "vf::NTR_TM", "TC1": "vf::TC1", "TC4": "vf::TC4", "TC8": "vf::TC8", "TC12": "vf::TC12", "TR": "vf::TR", "NTR": "vf::NTR"}
+ELEMS = {"K1": "vf::K1", "K2": "vf::K2", "int": "int", "double": "double", "NTRTM": "vf::NTR_TM", "TC1": "vf::TC1", "TC4": "vf::TC4", "TC8": "vf::TC8", "TC12": "vf::TC12", "TR": "vf::TR", "NTR": "vf::NTR"}
 
 
 def alloc_expr(kind, elem):
